@@ -143,8 +143,290 @@ Proof.
   - destruct a as [z|b|b| |l|l|k l|c s|c s|lf]; try reflexivity.
     + rewrite er_list, map_length. reflexivity.
     + rewrite er_tuple, map_length. reflexivity.
-    + rewrite er_dict. reflexivity.
 Qed.
 
 Lemma apply_uop_sim (o : uop) (a a' : value) : er a' = er a -> apply_uop o a' = apply_uop o a.
 Proof. intros E. rewrite <- (apply_uop_er o a'), <- (apply_uop_er o a), E. reflexivity. Qed.
+
+Lemma py_index_sim (l l' : list value) (i : Z) (v : value) :
+  map er l' = map er l -> py_index l i = Some v -> exists v', py_index l' i = Some v' /\ er v' = er v.
+Proof.
+  intros E. unfold py_index.
+  assert (EL : length l' = length l). { rewrite <- (map_length er l'), E, map_length. reflexivity. }
+  rewrite EL. destruct (_ && _); [|discriminate]. intros H.
+  pose proof (nth_error_map er (Z.to_nat (if i <? 0 then i + Z.of_nat (length l) else i)) l') as M.
+  rewrite E, nth_error_map, H in M. cbn [option_map] in M.
+  destruct (nth_error l' _) as [v'|]; [|discriminate]. cbn [option_map] in M. injection M as M.
+  exists v'. split; [reflexivity|congruence].
+Qed.
+
+Lemma dict_lookup_sim (ks : list value) : forall (vs vs' : list value) (k k' v : value),
+  map er vs' = map er vs -> er k' = er k -> dict_lookup ks vs k = Some v ->
+  exists v', dict_lookup ks vs' k' = Some v' /\ er v' = er v.
+Proof.
+  induction ks as [|k0 kr IH]; intros vs vs' k k' v E Ek; cbn [dict_lookup]; [discriminate|].
+  destruct vs as [|w vr]; [discriminate|]. destruct vs' as [|w' vr']; [discriminate|].
+  cbn [map] in E. injection E as Ew Er.
+  rewrite (value_eqb_sim k k' k0 k0 Ek eq_refl). destruct (value_eqb k k0).
+  - intros H. injection H as <-. exists w'. split; [reflexivity|exact Ew].
+  - intros H. exact (IH vr vr' k k' v Er Ek H).
+Qed.
+
+Lemma getitem_sim (a a' b b' r : value) : er a' = er a -> er b' = er b ->
+  apply_bop GetItem a b = Ok r -> exists r', apply_bop GetItem a' b' = Ok r' /\ er r' = er r.
+Proof.
+  intros Ea Eb. cbn [apply_bop].
+  assert (Ei : as_int b' = as_int b). { rewrite <- (as_int_er b'), Eb, as_int_er. reflexivity. }
+  destruct a as [z|bo|by_| |l|l|k l|c s|c s|lf]; try discriminate.
+  - destruct a'; try discriminate Ea. cbn [er] in Ea. injection Ea as ->. rewrite Ei.
+    destruct (as_int b); [|discriminate]. destruct (py_index by_ z); [|discriminate].
+    intros H. injection H as <-. eexists. split; reflexivity.
+  - destruct a' as [z|bo|by_| |l'|l'|k' l'|c s|c s|lf]; try discriminate Ea.
+    rewrite !er_list in Ea. injection Ea as Ea. rewrite Ei.
+    destruct (as_int b); [|discriminate]. destruct (py_index l z) as [w|] eqn:P; [|discriminate].
+    intros H. injection H as <-. destruct (py_index_sim l l' z w Ea P) as (w' & P' & Ew).
+    rewrite P'. exists w'. split; [reflexivity|exact Ew].
+  - destruct a' as [z|bo|by_| |l'|l'|k' l'|c s|c s|lf]; try discriminate Ea.
+    rewrite !er_tuple in Ea. injection Ea as Ea. rewrite Ei.
+    destruct (as_int b); [|discriminate]. destruct (py_index l z) as [w|] eqn:P; [|discriminate].
+    intros H. injection H as <-. destruct (py_index_sim l l' z w Ea P) as (w' & P' & Ew).
+    rewrite P'. exists w'. split; [reflexivity|exact Ew].
+  - destruct a' as [z|bo|by_| |l'|l'|k' l'|c s|c s|lf]; try discriminate Ea.
+    rewrite !er_dict in Ea. injection Ea as -> Ea.
+    destruct (dict_lookup k l b) as [w|] eqn:D; [|discriminate].
+    intros H. injection H as <-. destruct (dict_lookup_sim k l l' b b' w Ea Eb D) as (w' & D' & Ew).
+    rewrite D'. exists w'. split; [reflexivity|exact Ew].
+Qed.
+
+(* every other operator returns an integer or a boolean computed from integers, booleans and == *)
+Lemma arith_er (o : bop) (a b : value) : o <> GetItem -> apply_bop o (er a) (er b) = apply_bop o a b.
+Proof.
+  intros Ho. destruct o; try congruence;
+    try (cbn [apply_bop]; rewrite <- value_eqb_er; reflexivity);
+    (destruct a; destruct b; reflexivity).
+Qed.
+
+Lemma apply_bop_sim (o : bop) (a a' b b' r : value) : er a' = er a -> er b' = er b ->
+  apply_bop o a b = Ok r -> exists r', apply_bop o a' b' = Ok r' /\ er r' = er r.
+Proof.
+  intros Ea Eb H. destruct (match o with GetItem => true | _ => false end) eqn:G.
+  - destruct o; try discriminate. exact (getitem_sim a a' b b' r Ea Eb H).
+  - assert (Ho : o <> GetItem) by (intros ->; discriminate).
+    exists r. split; [|reflexivity].
+    rewrite <- (arith_er o a' b' Ho), Ea, Eb, (arith_er o a b Ho). exact H.
+Qed.
+
+(* ------------------------------------------------------------------------------------------ *)
+(** * Parsed slots against the slots `consistent` walked                                        *)
+(* ------------------------------------------------------------------------------------------ *)
+
+(* the parsed value v' against the original v: same visible part, same up to the slots of packets *)
+Definition vrel (ct : ctab) (v' v : value) : Prop := canon ct v' = canon ct v /\ er v' = er v.
+Lemma vrel_refl (ct : ctab) (v : value) : vrel ct v v.
+Proof. split; reflexivity. Qed.
+(* every attribute sb defines is defined by su, with a related value *)
+Definition ext (ct : ctab) (sb su : slots) : Prop :=
+  forall f v, slot_get sb f = Some v -> exists v', slot_get su f = Some v' /\ vrel ct v' v.
+
+Lemma ext_nil (ct : ctab) (su : slots) : ext ct [] su.
+Proof. intros f v H. discriminate H. Qed.
+Lemma ext_set (ct : ctab) (sb su : slots) (f : fname) (v v' : value) :
+  ext ct sb su -> vrel ct v' v -> ext ct (slot_set sb f v) (slot_set su f v').
+Proof.
+  intros H Hv g w. rewrite !slot_get_set. destruct (fname_eqb g f).
+  - intros E. injection E as <-. exists v'. split; [reflexivity|exact Hv].
+  - apply H.
+Qed.
+(* the parser wrote only attributes sb does not define *)
+Lemma ext_frame (ct : ctab) (sb su su' : slots) :
+  ext ct sb su -> (forall f, slot_get sb f <> None -> slot_get su' f = slot_get su f) -> ext ct sb su'.
+Proof.
+  intros H Hf g w E. rewrite Hf by congruence. exact (H g w E).
+Qed.
+
+Lemma eval_sim (ct : ctab) (cx1 cx2 : ectx) : ext ct (e_slots cx1) (e_slots cx2) ->
+  forall e v, expr_plain e = true -> eval cx1 e = Ok v -> exists v', eval cx2 e = Ok v' /\ er v' = er v.
+Proof.
+  intros Hx. fix IH 1. intros e. destruct e as [w|f|o a|o l r|sel opts|sel keys opts|c a b|a f| |]; intros v Hs He.
+  - exists v. split; [exact He|reflexivity].
+  - cbn [eval] in *. destruct (slot_get (e_slots cx1) f) as [x|] eqn:G; [|discriminate].
+    injection He as <-. destruct (Hx f x G) as (x' & G' & _ & Ex). rewrite G'. exists x'. split; [reflexivity|exact Ex].
+  - cbn [expr_plain] in Hs. cbn [eval] in *.
+    destruct (eval cx1 a) as [x|] eqn:E1; [|discriminate]. cbn [bind] in He.
+    destruct (IH a x Hs E1) as (x' & E1' & Ex). rewrite E1'. cbn [bind].
+    exists v. split; [|reflexivity]. rewrite (apply_uop_sim o x x' Ex). exact He.
+  - cbn [expr_plain] in Hs. apply andb_true_iff in Hs as [Hs1 Hs2]. cbn [eval] in *.
+    destruct (eval cx1 l) as [x|] eqn:E1; [|discriminate]. cbn [bind] in He.
+    destruct (eval cx1 r) as [y|] eqn:E2; [|discriminate]. cbn [bind] in He.
+    destruct (IH l x Hs1 E1) as (x' & E1' & Ex). destruct (IH r y Hs2 E2) as (y' & E2' & Ey).
+    rewrite E1'. cbn [bind]. rewrite E2'. cbn [bind]. exact (apply_bop_sim o x x' y y' v Ex Ey He).
+  - cbn [expr_plain] in Hs. apply andb_true_iff in Hs as [Hs1 Hs2]. cbn [eval] in *.
+    destruct (eval cx1 sel) as [x|] eqn:E1; [|discriminate]. cbn [bind] in He.
+    destruct (IH sel x Hs1 E1) as (x' & E1' & Ex). rewrite E1'. cbn [bind].
+    match type of He with bind ?G _ = _ => destruct G as [vs|] eqn:E2; [|discriminate] end. cbn [bind] in He.
+    match goal with |- exists _, bind ?G _ = _ /\ _ => assert (E3 : exists vs', G = Ok vs' /\ map er vs' = map er vs) end.
+    { clear He. revert vs Hs2 E2. induction opts as [|a r IHr]; intros vs Hs2 E2.
+      - injection E2 as <-. exists []. split; reflexivity.
+      - apply andb_true_iff in Hs2 as [Ha Hr].
+        destruct (eval cx1 a) as [y|] eqn:Ea; [|discriminate]. cbn [bind] in E2.
+        match type of E2 with bind ?G _ = _ => destruct G as [ys|] eqn:Er; [|discriminate] end.
+        cbn [bind] in E2. injection E2 as <-.
+        destruct (IH a y Ha Ea) as (y' & Ea' & Ey). destruct (IHr ys Hr eq_refl) as (ys' & Er' & Eys).
+        rewrite Ea'. cbn [bind]. rewrite Er'. cbn [bind]. exists (y' :: ys'). split; [reflexivity|].
+        cbn [map]. rewrite Ey, Eys. reflexivity. }
+    destruct E3 as (vs' & E3 & Evs). rewrite E3. cbn [bind].
+    apply (apply_bop_sim GetItem (VTuple vs) (VTuple vs') x x' v); [|exact Ex|exact He].
+    rewrite !er_tuple, Evs. reflexivity.
+  - cbn [expr_plain] in Hs. apply andb_true_iff in Hs as [Hs1 Hs2]. cbn [eval] in *.
+    destruct (eval cx1 sel) as [x|] eqn:E1; [|discriminate]. cbn [bind] in He.
+    destruct (IH sel x Hs1 E1) as (x' & E1' & Ex). rewrite E1'. cbn [bind].
+    match type of He with bind ?G _ = _ => destruct G as [vs|] eqn:E2; [|discriminate] end. cbn [bind] in He.
+    match goal with |- exists _, bind ?G _ = _ /\ _ => assert (E3 : exists vs', G = Ok vs' /\ map er vs' = map er vs) end.
+    { clear He. revert vs Hs2 E2. induction opts as [|a r IHr]; intros vs Hs2 E2.
+      - injection E2 as <-. exists []. split; reflexivity.
+      - apply andb_true_iff in Hs2 as [Ha Hr].
+        destruct (eval cx1 a) as [y|] eqn:Ea; [|discriminate]. cbn [bind] in E2.
+        match type of E2 with bind ?G _ = _ => destruct G as [ys|] eqn:Er; [|discriminate] end.
+        cbn [bind] in E2. injection E2 as <-.
+        destruct (IH a y Ha Ea) as (y' & Ea' & Ey). destruct (IHr ys Hr eq_refl) as (ys' & Er' & Eys).
+        rewrite Ea'. cbn [bind]. rewrite Er'. cbn [bind]. exists (y' :: ys'). split; [reflexivity|].
+        cbn [map]. rewrite Ey, Eys. reflexivity. }
+    destruct E3 as (vs' & E3 & Evs). rewrite E3. cbn [bind].
+    apply (apply_bop_sim GetItem (VDict keys vs) (VDict keys vs') x x' v); [|exact Ex|exact He].
+    rewrite !er_dict, Evs. reflexivity.
+  - cbn [expr_plain] in Hs. apply andb_true_iff in Hs as [Hs12 Hs3]. apply andb_true_iff in Hs12 as [Hs1 Hs2].
+    cbn [eval] in *.
+    destruct (eval cx1 c) as [x|] eqn:E1; [|discriminate]. cbn [bind] in He.
+    destruct (eval cx1 a) as [y|] eqn:E2; [|discriminate]. cbn [bind] in He.
+    destruct (eval cx1 b) as [z|] eqn:E3; [|discriminate]. cbn [bind] in He. injection He as <-.
+    destruct (IH c x Hs1 E1) as (x' & E1' & Ex). destruct (IH a y Hs2 E2) as (y' & E2' & Ey).
+    destruct (IH b z Hs3 E3) as (z' & E3' & Ez).
+    rewrite E1'. cbn [bind]. rewrite E2'. cbn [bind]. rewrite E3'. cbn [bind].
+    eexists. split; [reflexivity|].
+    rewrite <- (truth_er x'), Ex, truth_er. destruct (truth x); assumption.
+  - discriminate.
+  - discriminate.
+  - discriminate.
+Qed.
+
+Lemma eval_int_sim (ct : ctab) (cx1 cx2 : ectx) (e : expr) (z : Z) : ext ct (e_slots cx1) (e_slots cx2) ->
+  expr_plain e = true -> eval_int cx1 e = Ok z -> eval_int cx2 e = Ok z.
+Proof.
+  intros Hx Hp. unfold eval_int. destruct (eval cx1 e) as [v|] eqn:E; [|discriminate]. cbn [bind].
+  destruct (eval_sim ct cx1 cx2 Hx e v Hp E) as (v' & E' & Ev). rewrite E'. cbn [bind].
+  rewrite <- (as_int_er v'), Ev, as_int_er. intros H; exact H.
+Qed.
+Lemma eval_truth_sim (ct : ctab) (cx1 cx2 : ectx) (e : expr) (v : value) : ext ct (e_slots cx1) (e_slots cx2) ->
+  expr_plain e = true -> eval cx1 e = Ok v -> exists v', eval cx2 e = Ok v' /\ truth v' = truth v.
+Proof.
+  intros Hx Hp E. destruct (eval_sim ct cx1 cx2 Hx e v Hp E) as (v' & E' & Ev). exists v'. split; [exact E'|].
+  rewrite <- (truth_er v'), Ev, truth_er. reflexivity.
+Qed.
+
+(* ------------------------------------------------------------------------------------------ *)
+(** * The output buffer when every write is an append: a contiguous block                       *)
+(* ------------------------------------------------------------------------------------------ *)
+
+Definition block (fr : frs) (B : bytes) : Prop :=
+  Inv fr /\ NonNeg fr /\ cur fr = blen B /\ extent (frags fr) = blen B /\
+  forall q, cell (frags fr) q = if (0 <=? q) && (q <? blen B) then nth_error B (Z.to_nat q) else None.
+
+Lemma block_empty : block empty [].
+Proof.
+  destruct inv_empty as [HI HN]. split; [exact HI|]. split; [exact HN|]. split; [reflexivity|]. split; [reflexivity|].
+  intros q. cbn [empty frags cell]. rewrite DataProofs.blen_nil.
+  destruct (Z.leb_spec 0 q), (Z.ltb_spec q 0); cbn [andb]; try reflexivity. lia.
+Qed.
+
+Lemma block_append (fr : frs) (B b : bytes) : block fr B ->
+  exists fr', append fr b = Frag.Ok fr' /\ block fr' (B ++ b).
+Proof.
+  intros (HI & HN & Hcur & Hext & Hcell). unfold append.
+  pose proof (DataProofs.blen_nonneg B) as HB. pose proof (DataProofs.blen_nonneg b) as Hb.
+  destruct (insert fr (cur fr) b) as [fr'| |] eqn:E.
+  - exists fr'. split; [reflexivity|].
+    destruct (insert_ok fr (cur fr) b fr' HI E) as (HI' & Hcur' & Hcell' & Hext').
+    split; [exact HI'|]. split; [apply (insert_nonneg fr (cur fr) b fr' HN); [lia|exact E]|].
+    rewrite DataProofs.blen_app. split; [lia|]. split; [lia|].
+    intros q. rewrite Hcell', Hcell, Hcur.
+    destruct (Z.leb_spec (blen B) q), (Z.ltb_spec q (blen B + blen b)), (Z.leb_spec 0 q), (Z.ltb_spec q (blen B)),
+      (Z.ltb_spec q (blen B + blen b)); cbn [andb]; try lia; try reflexivity.
+    + rewrite nth_error_app2 by (unfold blen in *; lia). f_equal. unfold blen in *. lia.
+    + rewrite nth_error_app1 by (unfold blen in *; lia). reflexivity.
+  - exfalso. assert (Hne : b <> []). { intros ->. rewrite insert_empty_eq in E. discriminate. }
+    apply (insert_collision_iff fr (cur fr) b HI Hne) in E. destruct E as (q & Hq & Hc).
+    apply Hc. rewrite Hcell. destruct (Z.leb_spec 0 q), (Z.ltb_spec q (blen B)); cbn [andb]; try reflexivity. lia.
+  - exfalso. exact (insert_no_crash fr (cur fr) b HI E).
+Qed.
+
+Lemma nth_error_ext_eq {A : Type} : forall l1 l2 : list A, length l1 = length l2 ->
+  (forall n, (n < length l1)%nat -> nth_error l1 n = nth_error l2 n) -> l1 = l2.
+Proof.
+  induction l1 as [|a l1 IH]; intros [|b l2] HL H; try discriminate HL; [reflexivity|].
+  cbn [length] in *. f_equal.
+  - assert (H0 := H 0%nat ltac:(lia)). cbn [nth_error] in H0. congruence.
+  - apply IH; [lia|]. intros n Hn. exact (H (S n) ltac:(lia)).
+Qed.
+
+Lemma block_tobytes (fr : frs) (B : bytes) : block fr B -> tobytes fr = B.
+Proof.
+  intros (HI & HN & Hcur & Hext & Hcell). destruct (tobytes_spec fr HI HN) as [HL Hn].
+  apply nth_error_ext_eq.
+  - unfold blen in *. lia.
+  - intros n Hl. assert (Hq : 0 <= Z.of_nat n < extent (frags fr)) by (unfold blen in *; lia).
+    pose proof (Hn (Z.of_nat n) Hq) as Hq'. rewrite Nat2Z.id in Hq'. rewrite Hq', Hcell.
+    destruct (Z.leb_spec 0 (Z.of_nat n)), (Z.ltb_spec (Z.of_nat n) (blen B)); cbn [andb]; try lia.
+    rewrite Nat2Z.id. destruct (nth_error B n) eqn:G; [reflexivity|].
+    apply nth_error_None in G. unfold blen in *. lia.
+Qed.
+
+Lemma set_cur_same (fr : frs) : set_cur fr (cur fr) = fr.
+Proof. destruct fr; reflexivity. Qed.
+Lemma seq_align_1 (o : Z) : seq_align 1 o = Some o.
+Proof. unfold seq_align, pymod. cbn [Z.eqb]. rewrite Z.mod_1_r. cbn [Z.sub Z.opp Z.add Z.pos_sub]. rewrite Z.mod_1_r, Z.add_0_r. reflexivity. Qed.
+
+Lemma emit_block (sp : slots) (fr : frs) (B b : bytes) : block fr B ->
+  exists fr', emit sp fr b = KOk sp fr' /\ block fr' (B ++ b).
+Proof.
+  intros H. destruct (block_append fr B b H) as (fr' & E & H'). exists fr'. unfold emit. rewrite E. split; [reflexivity|exact H'].
+Qed.
+
+(* ------------------------------------------------------------------------------------------ *)
+(** * Slices of a string with a known middle                                                   *)
+(* ------------------------------------------------------------------------------------------ *)
+
+Lemma slice_from_mid (pre x : bytes) : slice_from (pre ++ x) (blen pre) = x.
+Proof. unfold slice_from, blen. rewrite Nat2Z.id. apply skipn_len_app. Qed.
+Lemma slice_mid (pre x post : bytes) : slice (pre ++ x ++ post) (blen pre) (blen pre + blen x) = x.
+Proof.
+  unfold slice. replace (Z.to_nat (blen pre)) with (length pre) by (unfold blen; lia).
+  replace (Z.to_nat (blen pre + blen x - blen pre)) with (length x) by (unfold blen; lia).
+  rewrite skipn_len_app. apply firstn_len_app.
+Qed.
+
+Lemma wf_bytesb_ok (b : bytes) : wf_bytesb b = true -> wf_bytes b.
+Proof.
+  unfold wf_bytesb, wf_bytes. rewrite forallb_forall, Forall_forall. intros H x Hx. specialize (H x Hx).
+  unfold wf_byteb in H. apply andb_true_iff in H as [A C]. unfold wf_byte. lia.
+Qed.
+
+(* the marker, first found at the end of the body, is still first found there when more bytes follow *)
+Lemma find_excl_ext (b m post : bytes) : find (b ++ m) m = Some (blen b) -> find (b ++ m ++ post) m = Some (blen b).
+Proof.
+  intros F. destruct (find_least _ _ _ F) as [_ Hmin].
+  destruct (find_complete (b ++ m ++ post) m (blen b) (occurs_at_mid m b post)) as (i & Fi & Hi).
+  rewrite Fi. f_equal. destruct (find_least _ _ _ Fi) as [Ho _].
+  destruct (Z_lt_ge_dec i (blen b)) as [Hlt|Hge]; [|lia]. exfalso.
+  assert (H0 : 0 <= i) by (destruct Ho; lia).
+  apply (Hmin i); [lia|]. rewrite app_assoc in Ho. apply (occurs_at_app_l m (b ++ m) post i Ho).
+  rewrite DataProofs.blen_app. lia.
+Qed.
+Lemma find_incl_ext (b m post : bytes) (c : Z) : find b m = Some c -> find (b ++ post) m = Some c.
+Proof.
+  intros F. destruct (find_least _ _ _ F) as [Hoc Hmin].
+  destruct (find_complete (b ++ post) m c (occurs_at_app_r m b post c Hoc)) as (i & Fi & Hi).
+  rewrite Fi. f_equal. destruct (find_least _ _ _ Fi) as [Ho _].
+  destruct (Z_lt_ge_dec i c) as [Hlt|Hge]; [|lia]. exfalso.
+  assert (H0 : 0 <= i) by (destruct Ho; lia).
+  apply (Hmin i); [lia|]. apply (occurs_at_app_l m b post i Ho). destruct Hoc as (_ & Hc & _). lia.
+Qed.
